@@ -397,8 +397,16 @@ theorem reuse_answers (node : LDec) (o : LObj) (input : Bytes) (hcl : Cleared o)
   Proved here: the three lemmas that make the pool invariant "everything in a pool is cleared"
   inductive and sufficient — (A) stale state is unobservable, (B) `Close` only clears and pools only
   cleared objects, (C) decoding into a cleared object equals decoding into a new one, for the pass,
-  every accessor and nested selection.  Not proved in Lean: the induction over whole histories with
-  object identities (it additionally needs "no object is in a pool twice or in two closer lists",
-  which the double-`Close` guard provides); that step is validated by the correspondence stream,
-  which feeds the implementation's observed reuse choices to this very state machine. -/
+  every accessor and nested selection.
+
+  Proved in `Props/C14History.lean`: the induction over WHOLE histories with object identities for
+  histories on root results (Decode / accessor / Range / Close, any pool choice at every Decode,
+  pooled or unpooled root): `flat_history_refines` (the outputs are those of a pool-free specification
+  in which every answer is computed from the handle's own input) and `flat_history_no_panic`.
+
+  Not proved in Lean (`…_partial` in that sense): the same induction for histories that also create
+  nested results (`NestedResult(s)`, multi-element accessor paths); it additionally needs "no object is in
+  two closer lists / the closer graph is a forest", which the `skipClose` flag provides.  That part is
+  validated by the correspondence stream, which feeds the implementation's observed reuse choices to
+  this very state machine, and by lemmas (A)–(C), which hold for nested decoders as well. -/
 end Csproto.C14
